@@ -17,7 +17,8 @@ CONSTANTS MinRank, MaxRank, MaxDim, MaxDimHi, HiRank,
           Modes,      \* subset of {"safe","unsafe","reuse","incr","reuseA","reuseB"}
           LayD,       \* layouts of a reuse / incr destination
           ShapeMismatch,
-          Chain       \* BOOLEAN: safe arithmetic results are fed to a second call
+          Chain,      \* BOOLEAN: safe arithmetic results are fed to a second call
+          ScalarTensors \* BOOLEAN: the scalar operand as a rank-0 tensor
 
 Shapes == UNION {ShapesOfRank(r, IF r >= HiRank THEN MaxDimHi ELSE MaxDim) : r \in MinRank..MaxRank}
 
@@ -61,6 +62,22 @@ Next ==
          /\ (kind = "Cmp" /\ mode \in {"reuseA", "reuseB"}) => same = 1
          /\ DoAll(Program(kind, s, form, la, lb, mode, ld, same))
 
+(* the scalar operand handed over as a rank-0 tensor (package functions): it is an operand like any other and must
+   come out unchanged; the tensor operand in every layout, the scalar on either side *)
+NextScalarTensor ==
+    /\ steps = <<>> /\ ScalarTensors
+    /\ \E kind \in Kinds \ {"Unary", "FMA"}, s \in Shapes, la \in LayA, form \in {"TZ", "ZT"}, same \in {0, 1} :
+         /\ LayoutOK(la, s) /\ Len(s) >= 1 /\ Prod(s) > 1
+         /\ (kind # "Cmp" => same = 0)
+         /\ LET ra == Recipe(la, s, 1, "")
+                z == 1 + ra.n
+            IN DoAll(ra.ops \o <<Op("New", 0, <<<<>>, "C", "">>),
+                                  IF kind = "Arith" THEN Op("Arith", ra.h, <<"OP", form, z, "safe", 0>>)
+                                  ELSE Op("Cmp", ra.h, <<"OP", form, z, "safe", 0, same>>),
+                                  \* and once more with the same scalar tensor: it still holds its value
+                                  IF kind = "Arith" THEN Op("Arith", ra.h, <<"OP", form, z, "safe", 0>>)
+                                  ELSE Op("Cmp", ra.h, <<"OP", form, z, "safe", 0, same>>)>>)
+
 (* mismatched shapes must be refused *)
 NextMismatch ==
     /\ steps = <<>> /\ ShapeMismatch
@@ -84,7 +101,7 @@ NextFMA ==
                 rd == Recipe(ld, s, 1 + ra.n + rb.n, "")
             IN DoAll(ra.ops \o rb.ops \o rd.ops \o <<Op("FMA", ra.h, <<form, rb.h, rd.h>>)>>)
 
-Spec == Init /\ [][Next \/ NextMismatch \/ NextFMA]_vars
+Spec == Init /\ [][Next \/ NextMismatch \/ NextFMA \/ NextScalarTensor]_vars
 
 CaseRec == [fam |-> "elem", steps |-> steps, live |-> live, heap |-> heap, allocs |-> allocs]
 Emit == IF steps # <<>> THEN PrintT(<<"CASE", ToJson(CaseRec)>>) ELSE TRUE
